@@ -13,7 +13,7 @@ from ..canon import chash
 ID = "C18"
 LEVEL = "exploration"
 NEEDS_STUBS = True
-RULE = ("initial states drawn from merge.tool x diff.guitool in {unset, nbdime, meld} in the scope under test and, independently, in the other scope, difftool.prompt x mergetool.prompt in {unset, true, "
+RULE = ("initial states drawn from merge.tool x diff.guitool in {unset, nbdime, meld, foreign tools named like nbdime (nbdime-wrapper, my-nbdime, nbdime2)} in the scope under test and, independently, in the other scope, difftool.prompt x mergetool.prompt in {unset, true, "
         "false}, unrelated keys, attributes file in {absent, unrelated rules with/without final newline, already nbdime's lines, "
         "'*.ipynb diff=other'}, scope in {repository, global (scratch HOME; XDG_CONFIG_HOME a directory / unset / empty; sometimes core.attributesfile)}; then every "
         "sequence of up to 3 real commands from {nbdime config-git, git-nbdiffdriver|git-nbmergedriver|git-nbdifftool|git-nbmergetool "
